@@ -14,6 +14,7 @@ def build(tier, ctx):
     defs = pvcommon.scope_defs(ctx["repo"], n)
     defs += [("F+", d) for d in fragment.F_plus_extra(n - 1)]
     defs += pvcommon.extended_defs(5 if tier == "quick" else 6)
+    defs += pvcommon.skeleton_defs(tier)
     return [{"name": nm, "defn": dsl.to_list(d), "k": 2,
              "pres": ["canonical", "reversed"], "mode": "c05"}
             for nm, d in defs]
